@@ -116,6 +116,10 @@ class Body:
             if t["k"] in ("call", "tailcall"):
                 yield i, t
 
+    def orig(self, bb):
+        """index of the block this one was cloned from (trace partitioning), else itself"""
+        return self.blocks[bb].get("orig", bb)
+
     def is_cleanup(self, bb):
         return bool(self.blocks[bb].get("cleanup"))
 
@@ -126,7 +130,12 @@ class Body:
         if self._defs is None:
             d = defaultdict(list)
             pd = defaultdict(list)
+            seen_orig = set()
             for i, b in enumerate(self.blocks):
+                if "orig" in b:
+                    if b["orig"] in seen_orig or b["orig"] < 0:
+                        continue  # a clone of a block already visited: same statements, same definitions
+                    seen_orig.add(b["orig"])
                 for j, s in enumerate(b["s"]):
                     if s["k"] == "assign":
                         if len(s["d"]) == 1:
